@@ -498,14 +498,14 @@ class CircuitTemplate(AbstractBaseTemplate):
         outputs_final = {}
         for key, out_info in output_map.items():
             if type(out_info) is dict:
-                outputs_final[key] = {key2: np.squeeze(outputs.pop(key2)[:, idx]) for key2, idx in out_info.items()}
+                outputs_final[key] = {key2: _drop_unit_axis(outputs.pop(key2)[:, idx]) for key2, idx in out_info.items()}
             else:
                 raw = outputs.pop(key)[:, out_info]
                 if hasattr(out_info, '__len__') and len(out_info) > 1:
                     # population output: keep (n_time, n_units) — do not squeeze unit axis
                     outputs_final[key] = raw
                 else:
-                    outputs_final[key] = np.squeeze(raw)
+                    outputs_final[key] = _drop_unit_axis(raw)
         time_vec = outputs.pop('time')
 
         # interpolate data if necessary
@@ -1648,6 +1648,12 @@ class CircuitTemplate(AbstractBaseTemplate):
                 "only recommended to be used with `CirucitTemplate.generate_run_function()`, but not "
                 "for usage with `CircuitTemplate.run()`."
             ))
+
+
+def _drop_unit_axis(a: np.ndarray) -> np.ndarray:
+    """Drops the unit axis of a (n_time, 1) recording, but never the time axis (a run may store a single row)."""
+    a = np.asarray(a)
+    return a[:, 0] if a.ndim == 2 and a.shape[1] == 1 else a
 
 
 def update_edges(base_edges: List[tuple], updates: List[Union[tuple, dict]]):
